@@ -41,6 +41,8 @@ typedef struct {
     char *name;
     uint16_t slot;
     char *struct_type;  /* Struct type name for field resolution (NULL if not a struct) */
+    const char *union_name;     /* match-arm binding: the union ... */
+    const char *variant_name;   /* ... and the variant it is bound to (NULL otherwise) */
 } Local;
 
 typedef struct {
@@ -248,6 +250,8 @@ static uint16_t local_add(CG *cg, const char *name, int line) {
     cg->locals[slot].name = (char *)name;
     cg->locals[slot].slot = slot;
     cg->locals[slot].struct_type = NULL;
+    cg->locals[slot].union_name = NULL;
+    cg->locals[slot].variant_name = NULL;
     cg->local_count++;
     return slot;
 }
@@ -1877,6 +1881,28 @@ static void compile_expr(CG *cg, ASTNode *node) {
             }
         }
 
+        /* Field of a match-arm binding: resolve the name inside the bound variant
+         * (field names may be shared by other variants, unions and structs) */
+        if (obj->type == AST_IDENTIFIER) {
+            const Local *bl = NULL;
+            for (int li = cg->local_count - 1; li >= 0; li--) {
+                if (strcmp(cg->locals[li].name, obj->as.identifier) == 0) { bl = &cg->locals[li]; break; }
+            }
+            if (bl && bl->union_name && bl->variant_name) {
+                CgUnionDef *bud = union_find(cg, bl->union_name);
+                int16_t bvi = bud ? union_variant_index(bud, bl->variant_name) : -1;
+                if (bud && bvi >= 0) {
+                    for (int fi = 0; fi < bud->variant_field_counts[bvi]; fi++) {
+                        if (strcmp(bud->variant_field_names[bvi][fi], field) == 0) {
+                            compile_expr(cg, obj);
+                            emit_op(cg, OP_UNION_FIELD, fi);
+                            goto field_done;
+                        }
+                    }
+                }
+            }
+        }
+
         /* Regular struct field access */
         compile_expr(cg, obj);
 
@@ -2007,6 +2033,11 @@ static void compile_expr(CG *cg, ASTNode *node) {
             if (binding && binding[0] != '\0') {
                 emit_op(cg, OP_DUP);  /* keep union on stack */
                 uint16_t bslot = local_add(cg, binding, node->line);
+                if (ud) {
+                    /* fields of the binding are those of this variant of this union */
+                    cg->locals[bslot].union_name = ud->name;
+                    cg->locals[bslot].variant_name = variant;
+                }
                 emit_op(cg, OP_STORE_LOCAL, (int)bslot);
             }
 
